@@ -119,6 +119,28 @@ Fixpoint generic_scan (depth : nat) (ts : list tok) : bool :=
   | _ :: r => generic_scan depth r
   end.
 
+(* since fix 98a0163 the look-ahead reads at most [scan_bound] tokens (`if (++scanned_tokens > 256) break;`):
+   [generic_scan_b n] is the loop as coded, [n] = tokens it may still examine; when they run out `<` is
+   the comparison operator.  [generic_scan] above stays the bound-free hazard: the bounded scan answers
+   "call" only where the unbounded one does (Theorems.scan_b_implies_scan). *)
+Fixpoint generic_scan_b (n depth : nat) (ts : list tok) : bool :=
+  match n with
+  | O => false
+  | S n =>
+    match ts with
+    | [] => false
+    | (TSemi | TLP | TRP | TRBrace | TAsg None | TOp Add | TOp Sub | TOp And | TOp Or) :: _ => false
+    | TOp LtO :: r => generic_scan_b n (S depth) r
+    | TOp GtO :: r =>
+        match depth with
+        | S (S d) => generic_scan_b n (S d) r
+        | _ => match r with TLP :: _ => true | _ => false end
+        end
+    | _ :: r => generic_scan_b n depth r
+    end
+  end.
+Definition scan_bound : nat := 256.
+
 (* primary_expression_parser.cpp:392-470: the type-argument list of a generic call.
    [targs_one d ts] = inner `while (true)` for one argument (d = type_depth, ne = "type_arg is
    non-empty"); stops before a `>` or `,` at depth 0. *)
@@ -334,7 +356,7 @@ with p_primary (f : nat) (ts : list tok) {struct f} : res (expr * list tok) :=
       match ts with
       | TNum n :: r => Ok (Num n, r)
       | TId x :: TOp LtO :: r1 =>
-          if generic_scan 1 r1 then
+          if generic_scan_b scan_bound 1 r1 then
             (* taken for a generic call: parse the type arguments, then the call *)
             match targs_list (S (length r1)) 0 r1 with
             | Some (n, TLP :: r2) =>
